@@ -258,7 +258,6 @@ func runC07(c *Ctx) {
 	c.Rule("R07.12", "E5", "finalizer and teardown decisions are taken on the live state: a NotFound or a finalizer set read from the lagging cache would release an input finalizer while the output still exists", 10)
 	liveStateRules(c, "R07.12")
 
-
 	// ---------- R07.13 (shared with C08 R08.8)
 	c.Rule("R07.13", "E1", "Teardown / Destroy / AddFinalizer / RemoveFinalizer of the adapter report success (or readiness) only after the owned state's operation ran", 8)
 	delegateBeforeSuccess(c, "R07.13")
